@@ -183,7 +183,7 @@ fn scenario(rng: &mut Rng, forced: Option<(u8, u8)>) -> Scenario {
 }
 
 /// does `obs` equal `exp` where every expected byte >= 0x80 may appear raw or as the UTF-8 of that code point
-fn bytes_match(exp: &[u8], obs: &[u8]) -> bool {
+pub fn bytes_match(exp: &[u8], obs: &[u8]) -> bool {
     let mut j = 0;
     for &e in exp {
         if e < 0x80 {
